@@ -247,6 +247,234 @@ theorem no_panic_partial {sg : Signer} {buf : Bytes} {prev : Option Bytes} {firs
     · exact hov h hh hc.2
     · exact hdt h pos hh hq hc.2
 
+/-! ### on the server path only `time − fudge` is reachable -/
+
+theorem readRecords_append (buf : Bytes) (isAdd upd : Bool) (k₂ : Nat) :
+    ∀ k₁ pos sig edns, readRecords buf isAdd upd (k₁ + k₂) pos sig edns =
+      match readRecords buf isAdd upd k₁ pos sig edns with
+      | .ok (p, s, e) => readRecords buf isAdd upd k₂ p s e
+      | .err => .err
+      | .panic m => .panic m := by
+  intro k₁
+  induction k₁ with
+  | zero => intro pos sig edns; simp [readRecords]
+  | succ k ih =>
+    intro pos sig edns
+    rw [Nat.succ_add, readRecords, readRecords]
+    split
+    · split
+      · split
+        · exact ih _ _ _
+        · rfl
+      · rfl
+      · rfl
+    · rfl
+    · rfl
+
+/-- outside the additional section the loop state never changes -/
+theorem readRecords_nonadd_state (buf : Bytes) (upd : Bool) :
+    ∀ k pos sig edns p s e, readRecords buf false upd k pos sig edns = .ok (p, s, e) →
+      s = sig ∧ e = edns := by
+  intro k
+  induction k with
+  | zero => intro pos sig edns p s e h; simp [readRecords] at h; exact ⟨h.2.1.symm, h.2.2.symm⟩
+  | succ k ih =>
+    intro pos sig edns p s e h
+    rw [readRecords] at h
+    split at h
+    · split at h
+      · split at h
+        · rename_i sig' edns' hstep
+          have : sig' = sig ∧ edns' = edns := by
+            unfold recStep at hstep
+            split at hstep
+            · simp at hstep
+            · split at hstep
+              · simp at hstep
+              · split at hstep
+                · simp at hstep
+                · simp at hstep; exact ⟨hstep.1.symm, hstep.2.symm⟩
+          obtain ⟨rfl, rfl⟩ := this
+          exact ih _ _ _ _ _ _ h
+        · simp at h
+      · simp at h
+      · simp at h
+    · simp at h
+    · simp at h
+
+/-- a record takes at least 11 octets and ends inside the buffer -/
+theorem readRecords_len (buf : Bytes) (isAdd upd : Bool) :
+    ∀ k pos sig edns p s e, readRecords buf isAdd upd k pos sig edns = .ok (p, s, e) →
+      pos + 11 * k ≤ p ∧ (k = 0 ∨ p ≤ buf.length) := by
+  intro k
+  induction k with
+  | zero => intro pos sig edns p s e h; simp [readRecords] at h; omega
+  | succ k ih =>
+    intro pos sig edns p s e h
+    rw [readRecords] at h
+    split at h
+    · rename_i f hf
+      have hfr : pos + 11 ≤ f.rdEnd ∧ f.rdEnd ≤ buf.length := by
+        have hsp := readFrame_span hf
+        unfold readFrame at hf
+        split at hf
+        · rename_i n p' hn
+          have := (readName_span hn).lt
+          split at hf
+          · split at hf
+            · simp at hf
+            · split at hf
+              · simp at hf
+              · simp only [Outcome.ok.injEq] at hf; subst hf
+                simp only [Frame.rdEnd]; omega
+          · simp at hf
+        · simp at hf
+        · simp at hf
+      split at h
+      · split at h
+        · obtain ⟨h1, h2⟩ := ih _ _ _ _ _ _ h
+          refine ⟨by omega, .inr ?_⟩
+          rcases h2 with h2 | h2
+          · subst h2; simp [readRecords] at h; omega
+          · exact h2
+        · simp at h
+      · simp at h
+      · simp at h
+    · simp at h
+    · simp at h
+
+theorem parseRequest_no_panic (buf : Bytes) (rdok : Bool) (s : String) :
+    parseRequest buf rdok ≠ .panic s := by
+  unfold parseRequest
+  split
+  · simp
+  · split
+    · simp
+    · split
+      · split
+        · simp
+        · split
+          · split
+            · split
+              · simp
+              · simp
+              · rename_i s' hs; exact absurd hs (readRecords_no_panic _ _ _ _ _ _ _ _)
+            · simp
+            · rename_i s' hs; exact absurd hs (readRecords_no_panic _ _ _ _ _ _ _ _)
+          · simp
+          · rename_i s' hs; exact absurd hs (readRecords_no_panic _ _ _ _ _ _ _ _)
+      · simp
+      · rename_i s' hs; exact absurd hs (readQuery_no_panic _ _ _)
+
+/-- what a successful `Request::from_bytes` says about the three sections -/
+theorem parseRequest_sections {buf : Bytes} {rdok : Bool} {req : Req}
+    (h : parseRequest buf rdok = .ok req) :
+    readHdr buf = some req.hdr ∧ req.hdr.qd = 1 ∧
+    ∃ pos p1 p2 p3 sg ed x y, skipQueries buf req.hdr.qd 12 = .ok pos ∧
+      readRecords buf false (req.hdr.opcode == 5) req.hdr.an pos none none = .ok (p1, none, none) ∧
+      readRecords buf false (req.hdr.opcode == 5) req.hdr.ns p1 none none = .ok (p2, none, none) ∧
+      readRecords buf true (req.hdr.opcode == 5) req.hdr.ar p2 none none = .ok (p3, sg, ed) ∧
+      x = p3 ∧ y = p3 := by
+  unfold parseRequest at h
+  split at h
+  · simp at h
+  · rename_i hd hh
+    split at h
+    · simp at h
+    · rename_i hqd
+      split at h
+      · rename_i qn qt qc pos hq
+        split at h
+        · simp at h
+        · split at h
+          · rename_i p1 s1 e1 h1
+            split at h
+            · rename_i p2 s2 e2 h2
+              split at h
+              · rename_i p3 sg ed h3
+                simp only [Outcome.ok.injEq] at h; subst h
+                obtain ⟨rfl, rfl⟩ := readRecords_nonadd_state _ _ _ _ _ _ _ _ _ h1
+                obtain ⟨rfl, rfl⟩ := readRecords_nonadd_state _ _ _ _ _ _ _ _ _ h2
+                have hq1 : hd.qd = 1 := by omega
+                refine ⟨hh, hq1, pos, p1, p2, p3, sg, ed, p3, p3, ?_, h1, h2, h3, rfl, rfl⟩
+                simp only [hq1, skipQueries, hq]
+              · simp at h
+              · simp at h
+            · simp at h
+            · simp at h
+          · simp at h
+          · simp at h
+      · simp at h
+      · simp at h
+
+/-- **On the server path the only reachable panic is `time − fudge`.**  Once
+`Request::from_bytes` has accepted a message of at most 65 535 octets, `ANCOUNT + NSCOUNT`
+cannot overflow (every record takes ≥ 11 octets) and no TSIG can precede the last record
+(`RecordAfterSig`), so `verify_message_byte` on the same bytes can only panic on
+`time < fudge` — which requires a MAC made with the configured key. -/
+theorem server_panic_only_time_fudge {sg : Signer} {buf : Bytes} {rdok : Bool} {req : Req}
+    {s : String} (hlen : buf.length ≤ 65535) (hreq : parseRequest buf rdok = .ok req)
+    (hp : verifyMessageByte sg buf none true rdok = .panic s) :
+    s = "tsig:time-fudge" ∧ ∃ t r, signedBitmessageToBuf buf none true rdok = .ok (t, r) ∧
+      sg.macOK t r.data.mac = true ∧ TimeLtFudge r.data := by
+  obtain ⟨hh, hqd, pos, p1, p2, p3, sgr, ed, _, _, hq, h1, h2, h3, _, _⟩ :=
+    parseRequest_sections hreq
+  unfold verifyMessageByte at hp
+  split at hp
+  · rename_i t r hs
+    split at hp
+    · simp at hp
+    · split at hp
+      · simp at hp
+      · split at hp
+        · simp at hp
+        · rename_i hmac
+          split at hp
+          · rename_i hlt
+            simp only [Outcome.panic.injEq] at hp
+            exact ⟨hp.symm, t, r, hs, by simpa using hmac, hlt⟩
+          · simp at hp
+  · simp at hp
+  · rename_i m hm
+    exfalso
+    obtain ⟨h, pos', hh', hq', hc | hc⟩ := signed_panic hm
+    · -- ANCOUNT + NSCOUNT ≤ 65535
+      rw [hh] at hh'; cases hh'
+      have l1 := readRecords_len _ _ _ _ _ _ _ _ _ _ h1
+      have l2 := readRecords_len _ _ _ _ _ _ _ _ _ _ h2
+      have := hc.2
+      unfold CountOverflow at this
+      rcases l2.2 with z | z
+      · rcases l1.2 with z1 | z1
+        · omega
+        · have := l1.1; omega
+      · have := l1.1; have := l2.1; omega
+    · -- no TSIG before the last additional record
+      rw [hh] at hh'; cases hh'
+      rw [hq] at hq'; cases hq'
+      obtain ⟨_, q1, x, y, q2, s2, z, g1, g2⟩ := hc
+      have a := readRecords_append buf false (req.hdr.opcode == 5) req.hdr.ns req.hdr.an pos none none
+      rw [h1] at a; simp only at a; rw [h2] at a
+      rw [a] at g1
+      simp only [Outcome.ok.injEq, Prod.mk.injEq] at g1
+      obtain ⟨rfl, _, _⟩ := g1
+      by_cases har : req.hdr.ar = 0
+      · rw [har] at g2; simp [readRecords] at g2
+      · have e : req.hdr.ar = (req.hdr.ar - 1) + 1 := by omega
+        rw [e, readRecords_append, g2] at h3
+        simp only at h3
+        rw [readRecords] at h3
+        split at h3
+        · split at h3
+          · split at h3
+            · rename_i hstep
+              simp [recStep] at hstep
+            · simp at h3
+          · simp at h3
+          · simp at h3
+        · simp at h3
+        · simp at h3
+
 /-! ### witnesses -/
 
 /-- header (UPDATE, QD = 1, AR = `ar`) ‖ zone `. SOA IN` ‖ `extra` ‖ a TSIG RR owned by `.` with
@@ -347,5 +575,60 @@ theorem ex_authenticated_body :
     tbsBytes ([1, 1, 40, 0, 0, 1, 0, 0, 0, 0, 0, 1, 0, 0, 6, 0, 3] ++ tsigRR 255 0 9 5 mac32)
       ≠ some refTbs := by
   simp only [tbsBytes, refTbs]; eval_tsig
+
+/-! ### non-vacuity of the decision theorems -/
+
+/-- zone `.`, updates allowed, transfers signed-only, one key -/
+def cfgYes : ZoneCfg :=
+  { origin := Name.root, allowUpdate := true, axfr := .allowSigned, signers := [sgYes] }
+
+/-- like `msg` with the flags octet 2 and the question type as parameters -/
+def msgQ (b2 qt : Nat) (rr : Bytes) : Bytes :=
+  [1, 1, b2, 0, 0, 1, 0, 0, 0, 0, 0, 1, 0, 0, qt, 0, 1] ++ rr
+
+macro "eval_serve" : tactic => `(tactic|
+  simp [serve, parseRequest, dispatch, authorizeUpdate, authorizeAxfr, authorizedTsig, cfgYes, msgQ,
+    Hdr.isResponse, Name.zoneOf, Auth.ok, NOTAUTH, REFUSED, BADTIME,
+    msg, tsigRR, mac32, sgYes, verifyMessageByte, signedBitmessageToBuf, tbsOf, readHdr, rd16,
+    rd32, skipQueries, readQuery, locateSig, readRecords, readFrame, tsigOf, readTsigData, recStep,
+    Hdr.opcode, Name.isRoot, Frame.rdEnd, Name.readName, Name.readLabels, Name.extendName, Name.new,
+    Name.encodedLen, Name.dataLen, Name.MAX_LENGTH, Name.len, Name.root, Name.eq, Name.cmpWithF,
+    Name.cmpLabels, Name.cmpRev, algIs, algLabel, outLen])
+
+/-- the hypotheses of `update_applies_only_if` are satisfiable: a signed UPDATE inside its window
+(time 9, fudge 5, now 9) takes effect … -/
+example : ∃ d, serve cfgYes (msgQ 40 6 (tsigRR 255 0 9 5 mac32)) 9 true = .ok (some d) ∧
+    d.kind = .update ∧ d.effect = true := by
+  refine ⟨{ kind := .update, effect := true, rcode := 0, resp := some (.signed sgYes mac32 0) },
+    ?_, rfl, rfl⟩
+  eval_serve
+
+/-- … and the same request one second past the (half-open) window does not: BADTIME, signed -/
+example : ∃ d, serve cfgYes (msgQ 40 6 (tsigRR 255 0 9 5 mac32)) 14 true = .ok (some d) ∧
+    d.kind = .update ∧ d.effect = false ∧ d.rcode = NOTAUTH := by
+  refine ⟨{ kind := .update, effect := false, rcode := NOTAUTH,
+            resp := some (.signed sgYes mac32 BADTIME) }, ?_, rfl, rfl, rfl⟩
+  eval_serve
+
+/-- the hypotheses of `axfr_signed_only` are satisfiable -/
+example : ∃ d, serve cfgYes (msgQ 0 252 (tsigRR 255 0 9 5 mac32)) 9 true = .ok (some d) ∧
+    d.kind = .axfr ∧ d.effect = true := by
+  refine ⟨{ kind := .axfr, effect := true, rcode := 0, resp := some (.signed sgYes mac32 0) },
+    ?_, rfl, rfl⟩
+  eval_serve
+
+/-- an unsigned UPDATE is refused -/
+example : ∃ d, serve cfgYes [1, 1, 40, 0, 0, 1, 0, 0, 0, 0, 0, 0, 0, 0, 6, 0, 1] 9 true
+    = .ok (some d) ∧ d.kind = .update ∧ d.effect = false ∧ d.rcode = REFUSED := by
+  refine ⟨{ kind := .update, effect := false, rcode := REFUSED, resp := none }, ?_, rfl, rfl, rfl⟩
+  eval_serve
+
+/-- a truncated MAC (16 of 32 octets) is answered BADSIG, unsigned, even though the oracle of
+this signer says yes to everything: the length check comes first -/
+example : ∃ d, serve cfgYes (msgQ 40 6 (tsigRR 255 0 9 5 (List.replicate 16 170))) 9 true
+    = .ok (some d) ∧ d.effect = false ∧ d.rcode = NOTAUTH := by
+  refine ⟨{ kind := .update, effect := false, rcode := NOTAUTH, resp := some (.badSig sgYes) },
+    ?_, rfl, rfl⟩
+  eval_serve
 
 end HickoryVerif.C13
